@@ -454,7 +454,36 @@ func genericReplay(rec map[string]any) {
 			osExit(1)
 		}
 		fmt.Println("acceptance and results agree (trees are compared by the check itself)")
-	case "json", "replace", "records", "expr", "literal":
+	case "expr":
+		// C11: the expression is observed through a transform, as the check does
+		expr, _ := rec["expr"].(string)
+		text, _ := rec["text"].(string)
+		want, hasWant := rec["want"].(string)
+		if src == "" && expr != "" {
+			if want == "T" || want == "F" {
+				src = "set f to transform if " + expr + " then return 'T' end return 'F' end\nreplace all at least 1 any with f"
+			} else {
+				src = "set f to transform return " + expr + " end\nreplace all at least 1 any with f"
+			}
+			fmt.Printf("source (rebuilt): %s\n", src)
+		}
+		v, err, pi := compileSafe(src)
+		fmt.Printf("Compile -> err=%v panic=%v\n", err, pi)
+		if v == nil {
+			osExit(1)
+		}
+		ms, pi := runSafe(v, text)
+		if pi != nil || len(ms) != 1 {
+			fmt.Printf("Run(%q): panic %v, %d matches\n", text, pi, len(ms))
+			osExit(1)
+		}
+		got := ms[0].Replacement.GetValueOrDefault("")
+		fmt.Printf("text: %q\ngot:  %q\nwant: %q\n", text, got, want)
+		if hasWant && got != want {
+			osExit(1)
+		}
+		fmt.Println("replay passes (no violation)")
+	case "json", "replace", "records", "literal":
 		text, _ := rec["text"].(string)
 		v, err, pi := compileSafe(src)
 		fmt.Printf("Compile -> err=%v panic=%v\n", err, pi)
